@@ -1,7 +1,7 @@
 SPECIFICATION SpecSel
 CONSTANTS MaxArt = 4  MaxHist = 0  MaxCmd = 1  Sweep = "both"  GenDepth = 0
 CONSTANT Recs <- RecsSmall
-CONSTANT Shapes <- ShapesMid
+CONSTANT Shapes <- ShapesSmall
 CONSTANT ExprLists <- ExprListsSel
 VIEW view
 INVARIANT TypeOK
